@@ -362,7 +362,7 @@ pub fn property() -> Property {
             "patterns",
             "grammar-generated brace patterns with instance / decoy / mutant names",
             case_strategy,
-            |t| t.pick(100_000, 1_000_000),
+            |t| t.pick(100_000, 4_000_000),
             check,
         ), crate::fuzz::replay_stream(),
         ],
